@@ -1272,3 +1272,399 @@ Proof.
   destruct (pre_processing_inv kind m fb index p Hp) as [ow [iw [_ [_ [_ Ha]]]]]. fold g1 in Ha.
   rewrite Ha in R4. exact (prep_connected g1 _ u v R4).
 Qed.
+
+(** * Leiden.fit with the refinement as an oracle *)
+
+Lemma index_of_lt x u : In x u -> (index_of x u < length u)%nat.
+Proof.
+  induction u as [|y t IH]; intros H; [destruct H|]. simpl.
+  destruct (Nat.eqb_spec y x) as [E|E]; [lia|]. destruct H as [H|H]; [congruence|].
+  specialize (IH H). lia.
+Qed.
+
+Lemma nth_index_of x u : In x u -> nth (index_of x u) u 0%nat = x.
+Proof.
+  induction u as [|y t IH]; intros H; [destruct H|]. simpl.
+  destruct (Nat.eqb_spec y x) as [E|E]; [exact E|]. destruct H as [H|H]; [congruence|]. apply IH. exact H.
+Qed.
+
+Lemma index_of_nth u c : NoDup u -> (c < length u)%nat -> index_of (nth c u 0%nat) u = c.
+Proof.
+  revert c; induction u as [|y t IH]; intros c Hnd Hc; [simpl in Hc; lia|].
+  inversion Hnd as [|? ? Hnin Hnd']; subst. destruct c as [|c]; simpl.
+  - rewrite Nat.eqb_refl. reflexivity.
+  - simpl in Hc. destruct (Nat.eqb_spec y (nth c t 0%nat)) as [E|E].
+    + exfalso. apply Hnin. rewrite E. apply nth_In. lia.
+    + rewrite IH by (auto; lia). reflexivity.
+Qed.
+
+Lemma fold_max_In (l : list nat) : l <> [] -> In (fold_right Nat.max 0%nat l) l.
+Proof.
+  induction l as [|a t IH]; intros H; [congruence|]. simpl.
+  destruct t as [|b t'].
+  - simpl. left. lia.
+  - assert (Ht : In (fold_right Nat.max 0%nat (b :: t')) (b :: t')) by (apply IH; discriminate).
+    destruct (Nat.max_spec a (fold_right Nat.max 0%nat (b :: t'))) as [[_ E]|[_ E]]; rewrite E.
+    + right. exact Ht.
+    + left. reflexivity.
+Qed.
+
+Lemma distinct_sorted_NoDup l : NoDup (distinct_sorted l).
+Proof.
+  unfold distinct_sorted. apply sorted_NoDup. exact (proj1 (distinct_fold l [] (SSorted_nil lt))).
+Qed.
+
+(** Every label below n_labels of a [unique_inverse] answer is used. *)
+Lemma unique_inverse_onto l C :
+  l <> [] -> (C < n_labels (unique_inverse l))%nat ->
+  exists x, (x < length l)%nat /\ lab (unique_inverse l) x = C.
+Proof.
+  intros Hne HC. set (u := distinct_sorted l).
+  assert (Hmax : In (fold_right Nat.max 0%nat (unique_inverse l)) (unique_inverse l)).
+  { apply fold_max_In. unfold unique_inverse. destruct l; [congruence|discriminate]. }
+  unfold unique_inverse in Hmax. fold u in Hmax. apply in_map_iff in Hmax.
+  destruct Hmax as [y [Ey Hy]].
+  assert (Hyu : In y u) by (apply distinct_sorted_In; exact Hy).
+  assert (Hlt : (C < length u)%nat).
+  { unfold n_labels in HC. unfold unique_inverse in HC. fold u in HC. rewrite <- Ey in HC.
+    pose proof (index_of_lt y u Hyu). lia. }
+  assert (Hin : In (nth C u 0%nat) l) by (apply distinct_sorted_In; apply nth_In; exact Hlt).
+  apply (In_nth l _ 0%nat) in Hin. destruct Hin as [x [Hx Ex]].
+  exists x. split; [exact Hx|]. unfold unique_inverse. rewrite lab_map by exact Hx.
+  unfold lab, nthn. rewrite Ex. fold u. apply index_of_nth; [apply distinct_sorted_NoDup|exact Hlt].
+Qed.
+
+Lemma lab_In labels x : (x < length labels)%nat -> In (lab labels x) labels.
+Proof. intros H. unfold lab, nthn. apply nth_In. exact H. Qed.
+
+Lemma nthn_map_seq (f : nat -> nat) k c : (c < k)%nat -> nthn (map f (seq 0 k)) c = f c.
+Proof.
+  intros H. unfold nthn. rewrite (nth_indep _ 0%nat (f 0%nat)) by (rewrite map_length, seq_length; exact H).
+  rewrite map_nth, seq_nth by exact H. reflexivity.
+Qed.
+
+(** Edges of the graph map to edges (or to the same node) of the aggregate. *)
+Lemma connected_to_aggregate g labels k :
+  wf_wgraph g -> (forall i, (i < length g)%nat -> (lab labels i < k)%nat) ->
+  forall a b, connected g a b -> connected (aggregate_graph g labels k) (lab labels a) (lab labels b).
+Proof.
+  intros Hwf Hlt a b C. induction C as [a|a b He|a b C IH|a b c C1 IH1 C2 IH2].
+  - apply conn_refl.
+  - destruct He as [w Hin].
+    assert (Ha : (a < length g)%nat).
+    { destruct (Nat.lt_ge_cases a (length g)) as [H|H]; [exact H|].
+      rewrite wrow_of_overflow in Hin by exact H. destruct Hin. }
+    assert (Hb : (b < length g)%nat) by exact (Hwf a b w Hin).
+    apply conn_edge. exists (qn (agg_entry g labels (lab labels a) (lab labels b))).
+    unfold aggregate_graph. rewrite wrow_of_map_seq by (apply Hlt; exact Ha).
+    apply in_map_iff. exists (lab labels b). split; [reflexivity|].
+    apply filter_In. split; [apply in_seq; specialize (Hlt b Hb); lia|].
+    unfold agg_stored. apply existsb_exists. exists a. split; [apply in_seq; lia|].
+    rewrite Nat.eqb_refl. simpl. apply existsb_exists. exists (b, w). split; [exact Hin|].
+    simpl. apply Nat.eqb_refl.
+  - apply conn_sym. exact IH.
+  - apply conn_trans with (lab labels b); assumption.
+Qed.
+
+Definition refines (n : nat) (fine coarse : list nat) : Prop :=
+  forall x y, (x < n)%nat -> (y < n)%nat -> lab fine x = lab fine y -> lab coarse x = lab coarse y.
+
+(** What optimize_refine_core guarantees about its answer: one refined label per node, refined
+    clusters are subsets of the coarse clusters, and every refined cluster is connected (a node only
+    ever joins the refined cluster of a neighbour inside its own coarse cluster). *)
+Definition refine_contract (refine : nat -> wgraph -> list nat -> list nat) : Prop :=
+  forall count g labels, wf_wgraph g -> length labels = length g ->
+    let rf := refine count g labels in
+    length rf = length g /\ refines (length g) rf labels /\ cc_inv g rf.
+
+Section LeidenLevels.
+  Context (g0 : wgraph) (ows0 iws0 : list Q) (res : Q).
+  Let n0 := length g0.
+  Context (refine : nat -> wgraph -> list nat -> list nat) (Hrefine : refine_contract refine).
+
+  Lemma leiden_loop_ok kfuel tol_opt tol_agg n_agg : forall fuel g ows iws labels membership count log mg r,
+    level_inv g0 ows0 iws0 res g ows iws membership ->
+    length labels = length g -> (0 < length g)%nat -> cc_inv g labels ->
+    leiden_loop fuel kfuel res tol_opt tol_agg n_agg refine g ows iws labels membership count log mg = MOk r ->
+    log_total (r_log r) - log_total log
+      == objective g0 ows0 iws0 res (r_membership r)
+         - objective g0 ows0 iws0 res (map (nthn labels) membership) /\
+    (log_nonneg log -> log_nonneg (r_log r)) /\
+    length (r_membership r) = n0 /\
+    (forall u v, (u < n0)%nat -> (v < n0)%nat ->
+       lab (r_membership r) u = lab (r_membership r) v -> connected g0 u v).
+  Proof.
+    induction fuel as [|fuel IH]; intros g ows iws labels membership count log mg r Hlv Hll Hpos Hccl H;
+      cbn [leiden_loop] in H; [discriminate|].
+    pose proof Hlv as [Hwf Hsym Ho Hi Hml Hmlt Hobj Hconn].
+    set (k0 := n_labels labels) in *.
+    destruct (optimize kfuel g ows iws res tol_opt labels (cluster_sums k0 labels ows)
+                       (cluster_sums k0 labels iws) mg) as [[st inc]|] eqn:Eopt; [|discriminate].
+    destruct (optimize_ok kfuel g ows iws res tol_opt labels (cluster_sums k0 labels ows)
+                (cluster_sums k0 labels iws) mg st inc Hwf Hsym Hll)
+      as [Kl [Klt [Kinc [Kpos Kcc]]]]; auto.
+    { rewrite !cluster_sums_length. reflexivity. }
+    { intros x Hx. rewrite cluster_sums_length. apply lab_lt_n_labels. lia. }
+    { intros c Hc. rewrite cluster_sums_length in Hc. apply (cluster_sums_nth g labels k0 Hll ows c Hc). }
+    { intros c Hc. rewrite cluster_sums_length in Hc. apply (cluster_sums_nth g labels k0 Hll iws c Hc). }
+    specialize (Kcc Hccl).
+    set (lu := unique_inverse (k_labels st)) in *.
+    assert (Hlu : length lu = length g) by (unfold lu; rewrite unique_inverse_length; exact Kl).
+    assert (Hpat : forall x y, (x < length g)%nat -> (y < length g)%nat ->
+               Nat.eqb (lab lu x) (lab lu y) = Nat.eqb (lab (k_labels st) x) (lab (k_labels st) y)).
+    { intros x y Hx Hy. apply unique_inverse_pattern; rewrite Kl; assumption. }
+    assert (Hcclu : cc_inv g lu) by (apply (cc_inv_pattern g (k_labels st)); assumption).
+    destruct (Hrefine (S count) g lu Hwf Hlu) as [Rl [Rref Rcc]].
+    set (rf := refine (S count) g lu) in *.
+    set (rho := unique_inverse rf) in *.
+    assert (Hrho : length rho = length g) by (unfold rho; rewrite unique_inverse_length; exact Rl).
+    assert (Hpat2 : forall x y, (x < length g)%nat -> (y < length g)%nat ->
+               Nat.eqb (lab rho x) (lab rho y) = Nat.eqb (lab rf x) (lab rf y)).
+    { intros x y Hx Hy. apply unique_inverse_pattern; rewrite Rl; assumption. }
+    assert (Hccrho : cc_inv g rho) by (apply (cc_inv_pattern g rf); assumption).
+    assert (Hrefrho : refines (length g) rho lu).
+    { intros x y Hx Hy E. apply Rref; auto. apply Nat.eqb_eq. rewrite <- (Hpat2 x y Hx Hy). apply Nat.eqb_eq. exact E. }
+    (* the reported increase on the original graph *)
+    set (memu := map (fun c => nthn lu c) membership) in *.
+    assert (Hinc : inc == objective g0 ows0 iws0 res memu
+                          - objective g0 ows0 iws0 res (map (nthn labels) membership)).
+    { rewrite Kinc. rewrite <- (objective_pattern g ows iws res (k_labels st) lu Hpat).
+      rewrite (Hobj lu), (Hobj labels). reflexivity. }
+    set (k := n_labels rho) in *.
+    set (entry_ := {| l_count := S count; l_clusters := k; l_increase := inc |}) in *.
+    destruct (Nat.eqb k 1 || Qle_bool inc tol_agg || Z.eqb (Z.of_nat (S count)) n_agg).
+    - assert (Er : r = {| r_membership := memu; r_log := log ++ [entry_];
+                          r_fit_margin := mmin_tol (k_margin st) inc tol_agg |}) by congruence.
+      subst r. cbn [r_membership r_log].
+      split; [rewrite log_total_app; cbn [entry_ l_increase]; lra|]. split; [|split].
+      + intros Hn x Hx. apply in_app_or in Hx. destruct Hx as [Hx|[<-|[]]]; [apply Hn; exact Hx|exact Kpos].
+      + unfold memu. rewrite map_length. exact Hml.
+      + intros u v Hu Hv E. unfold memu in E. rewrite !lab_map in E by (rewrite Hml; assumption).
+        apply Hconn; [exact Hu|exact Hv|].
+        apply Hcclu; [apply Hmlt; exact Hu|apply Hmlt; exact Hv|exact E].
+    - pose proof (level_step g0 ows0 iws0 res g ows iws membership rho Hlv Hrho Hccrho) as Hnext.
+      cbv zeta in Hnext. fold k in Hnext.
+      assert (Hklt : forall i, (i < length g)%nat -> (lab rho i < k)%nat).
+      { intros i Hi'. apply lab_lt_n_labels. lia. }
+      assert (Hrf_ne : rf <> []) by (intros E; rewrite E in Rl; simpl in Rl; lia).
+      (* every refined cluster C < k has a first member p with rho p = C *)
+      assert (Hfirst : forall C, (C < k)%nat ->
+                 (index_of C rho < length g)%nat /\ lab rho (index_of C rho) = C).
+      { intros C HC. destruct (unique_inverse_onto rf C Hrf_ne HC) as [x [Hx Ex]]. fold rho in Ex.
+        assert (Hin : In C rho) by (rewrite <- Ex; apply lab_In; rewrite Hrho, <- Rl; exact Hx).
+        split; [rewrite <- Hrho; apply index_of_lt; exact Hin|apply nth_index_of; exact Hin]. }
+      set (labels' := coarse_of_refined lu rho k) in *.
+      assert (Hlab' : forall C, (C < k)%nat -> lab labels' C = lab lu (index_of C rho)).
+      { intros C HC. exact (nthn_map_seq (fun c => nthn lu (index_of c rho)) k C HC). }
+      assert (Hcc' : cc_inv (aggregate_graph g rho k) labels').
+      { intros a b Ha Hb E. rewrite agg_length in Ha, Hb. rewrite (Hlab' a Ha), (Hlab' b Hb) in E.
+        destruct (Hfirst a Ha) as [Pa Ea]. destruct (Hfirst b Hb) as [Pb Eb].
+        assert (G : connected (aggregate_graph g rho k) (lab rho (index_of a rho)) (lab rho (index_of b rho))).
+        { apply connected_to_aggregate; [exact Hwf|exact Hklt|]. apply Hcclu; assumption. }
+        rewrite Ea, Eb in G. exact G. }
+      assert (Hl' : length labels' = length (aggregate_graph g rho k)).
+      { unfold labels', coarse_of_refined. rewrite map_length, seq_length, agg_length. reflexivity. }
+      assert (Hp' : (0 < length (aggregate_graph g rho k))%nat).
+      { rewrite agg_length. unfold k, n_labels. lia. }
+      destruct (IH _ _ _ labels' _ _ _ _ r Hnext Hl' Hp' Hcc' H) as [R1 [R2 [R3 R4]]].
+      assert (Eobj : objective g0 ows0 iws0 res (map (nthn labels') (map (nthn rho) membership))
+                     == objective g0 ows0 iws0 res memu).
+      { unfold memu. apply objective_ext. intros x Hx. fold n0 in Hx.
+        rewrite (lab_map (nthn labels')) by (rewrite map_length, Hml; exact Hx).
+        rewrite (lab_map (nthn rho)) by (rewrite Hml; exact Hx).
+        rewrite (lab_map (fun c => nthn lu c)) by (rewrite Hml; exact Hx).
+        set (y := lab membership x). assert (Hy : (y < length g)%nat) by (apply Hmlt; exact Hx).
+        change (nthn labels' (nthn rho y)) with (lab labels' (lab rho y)).
+        rewrite (Hlab' (lab rho y) (Hklt y Hy)).
+        destruct (Hfirst (lab rho y) (Hklt y Hy)) as [Pp Ep].
+        apply Hrefrho; auto. }
+      rewrite log_total_app in R1; cbn [entry_ l_increase] in R1.
+      split; [lra|].
+      split; [|split; [exact R3|exact R4]].
+      intros Hn. apply R2. intros x Hx. apply in_app_or in Hx.
+      destruct Hx as [Hx|[<-|[]]]; [apply Hn; exact Hx|exact Kpos].
+  Qed.
+End LeidenLevels.
+
+Lemma get_probs_nonempty ws ps : get_probs_of ws = MOk ps -> (0 < length ws)%nat.
+Proof.
+  intros H. apply get_probs_of_ok in H. destruct H as [Hpos _].
+  destruct ws; [simpl in Hpos; lra|simpl; lia].
+Qed.
+
+Lemma node_weights_pos kind g ow iw : node_weights kind g = MOk (ow, iw) -> (0 < length g)%nat.
+Proof.
+  unfold node_weights. destruct kind.
+  - destruct (get_probs_of (make_weights_out Degree g)) as [p|] eqn:E1; [|intros; discriminate].
+    intros _. apply get_probs_nonempty in E1. rewrite make_weights_out_length in E1. exact E1.
+  - destruct (get_probs_of (make_weights_out Degree g)) as [p|] eqn:E1; [|intros; discriminate].
+    intros _. apply get_probs_nonempty in E1. rewrite make_weights_out_length in E1. exact E1.
+  - destruct (get_probs_of (make_weights_out Uniform g)) as [p|] eqn:E1; [|intros; discriminate].
+    intros _. apply get_probs_nonempty in E1. rewrite make_weights_out_length in E1. exact E1.
+Qed.
+
+(** Leiden.fit, for ANY refinement oracle meeting the contract. *)
+Lemma leiden_fit_core refine fuel kfuel kind res tol_opt tol_agg n_agg m fb index p r :
+  refine_contract refine ->
+  pre_processing kind m fb index = MOk p ->
+  leiden_loop fuel kfuel res tol_opt tol_agg n_agg refine (p_adj p) (p_out p) (p_in p)
+              (seq 0 (length (p_adj p))) (seq 0 (length (p_adj p))) 0 [] marg0 = MOk r ->
+  let obj := objective (p_adj p) (p_out p) (p_in p) res in
+  let g1 := working_graph kind m fb index in
+  obj (r_membership r) - obj (seq 0 (length (p_adj p))) == log_total (r_log r) /\
+  0 <= log_total (r_log r) /\
+  log_nonneg (r_log r) /\
+  length (r_membership r) = length g1 /\
+  (forall u v, (u < length g1)%nat -> (v < length g1)%nat ->
+     lab (r_membership r) u = lab (r_membership r) v -> connected g1 u v).
+Proof.
+  intros Hc Hp Hl obj g1. destruct (prep_level kind m fb index p res Hp) as [Hlv Hlen].
+  destruct (pre_processing_inv kind m fb index p Hp) as [ow [iw [Hnw [_ [_ Ha]]]]]. fold g1 in Ha, Hnw, Hlen.
+  assert (Hpos : (0 < length (p_adj p))%nat) by (rewrite Hlen; exact (node_weights_pos kind g1 ow iw Hnw)).
+  destruct (leiden_loop_ok (p_adj p) (p_out p) (p_in p) res refine Hc kfuel tol_opt tol_agg n_agg fuel
+              _ _ _ _ _ _ _ _ r Hlv (seq_length _ _) Hpos (cc_inv_singletons (p_adj p)) Hl) as [R1 [R2 [R3 R4]]].
+  assert (Hnn : log_nonneg (r_log r)) by (apply R2; intros x []).
+  unfold log_total at 2 in R1. simpl in R1.
+  assert (E0 : objective (p_adj p) (p_out p) (p_in p) res
+                 (map (nthn (seq 0 (length (p_adj p)))) (seq 0 (length (p_adj p))))
+               == objective (p_adj p) (p_out p) (p_in p) res (seq 0 (length (p_adj p)))).
+  { apply objective_ext. intros x Hx. rewrite lab_map by (rewrite seq_length; exact Hx).
+    rewrite (lab_seq _ x Hx). change (nthn (seq 0 (length (p_adj p))) x) with (lab (seq 0 (length (p_adj p))) x).
+    rewrite (lab_seq _ x Hx). reflexivity. }
+  split; [unfold obj; lra|]. split; [apply log_total_nonneg; exact Hnn|]. split; [exact Hnn|].
+  split; [rewrite R3; exact Hlen|].
+  intros u v Hu Hv E. rewrite <- Hlen in Hu, Hv.
+  specialize (R4 u v Hu Hv E). rewrite Ha in R4. exact (prep_connected g1 _ u v R4).
+Qed.
+
+(** * _post_processing (no shuffle): the returned labels_ describe the same partition *)
+
+Lemma insert_by_In size c l x : In x (insert_by size c l) <-> x = c \/ In x l.
+Proof.
+  induction l as [|d t IH]; simpl.
+  - intuition congruence.
+  - destruct (Nat.ltb (size d) (size c)); simpl; [intuition congruence|]. rewrite IH. intuition congruence.
+Qed.
+
+Lemma argsort_fold_In size l0 : forall acc x,
+  In x (fold_left (fun acc c => insert_by size c acc) l0 acc) <-> In x acc \/ In x l0.
+Proof.
+  induction l0 as [|c t IH]; intros acc x; cbn [fold_left].
+  - simpl. tauto.
+  - rewrite IH, insert_by_In. simpl. intuition congruence.
+Qed.
+
+Lemma argsort_desc_In sizes x : In x (argsort_desc sizes) <-> (x < length sizes)%nat.
+Proof.
+  unfold argsort_desc. rewrite argsort_fold_In, in_seq. simpl. intuition lia.
+Qed.
+
+Lemma post_processing_pattern mem sort x y :
+  (x < length mem)%nat -> (y < length mem)%nat ->
+  let labels := post_processing mem sort
+                  (argsort_desc (cluster_sizes (unique_inverse mem) (n_clusters mem))) None in
+  length labels = length mem /\
+  Nat.eqb (lab labels x) (lab labels y) = Nat.eqb (lab mem x) (lab mem y).
+Proof.
+  intros Hx Hy. unfold post_processing. destruct sort; [|split; reflexivity].
+  unfold reindex_labels. set (order := argsort_desc _). set (u := unique_inverse mem).
+  split; [rewrite map_length; apply unique_inverse_length|].
+  assert (Hu : length u = length mem) by apply unique_inverse_length.
+  rewrite !lab_map by (rewrite Hu; assumption).
+  rewrite <- (unique_inverse_pattern mem x y Hx Hy). fold u.
+  assert (Hin : In (lab u x) order).
+  { unfold order. apply argsort_desc_In. unfold cluster_sizes. rewrite map_length, seq_length.
+    unfold u, unique_inverse. rewrite lab_map by exact Hx. unfold n_clusters.
+    apply index_of_lt. apply distinct_sorted_In. apply lab_In. exact Hx. }
+  destruct (Nat.eqb_spec (lab u x) (lab u y)) as [E|E].
+  - rewrite E. apply Nat.eqb_refl.
+  - apply Nat.eqb_neq. intros E'. apply E. exact (index_of_inj _ _ order Hin E').
+Qed.
+
+Lemma post_processing_length mem sort order : length (post_processing mem sort order None) = length mem.
+Proof.
+  unfold post_processing. destruct sort; [|reflexivity].
+  unfold reindex_labels. rewrite map_length. apply unique_inverse_length.
+Qed.
+
+(** Louvain.fit / Leiden.fit without shuffling, stated on the returned labels_ and on the documented
+    objective of the modularity kind on the working graph. *)
+Lemma fit_labels_core kind m fb res p (r : fit_result) sort log_tot :
+  pre_processing kind m fb None = MOk p ->
+  let g1 := working_graph kind m fb None in
+  wf_wgraph g1 ->
+  let obj := objective (p_adj p) (p_out p) (p_in p) res in
+  obj (r_membership r) - obj (seq 0 (length (p_adj p))) == log_tot ->
+  length (r_membership r) = length g1 ->
+  (forall u v, (u < length g1)%nat -> (v < length g1)%nat ->
+     lab (r_membership r) u = lab (r_membership r) v -> connected g1 u v) ->
+  let labels := post_processing (r_membership r) sort
+                  (argsort_desc (cluster_sizes (unique_inverse (r_membership r)) (n_clusters (r_membership r)))) None in
+  kind_objective kind g1 res labels - kind_objective kind g1 res (seq 0 (length g1)) == log_tot /\
+  length labels = length g1 /\
+  (forall u v, (u < length g1)%nat -> (v < length g1)%nat -> lab labels u = lab labels v -> connected g1 u v).
+Proof.
+  intros Hp g1 Hwf obj Hobj Hlen Hconn labels.
+  destruct (prep_level kind m fb None p res Hp) as [_ Hlg]. fold g1 in Hlg.
+  assert (Hpat : forall x y, (x < length g1)%nat -> (y < length g1)%nat ->
+            Nat.eqb (lab labels x) (lab labels y) = Nat.eqb (lab (r_membership r) x) (lab (r_membership r) y)).
+  { intros x y Hx Hy. rewrite <- Hlen in Hx, Hy.
+    exact (proj2 (post_processing_pattern (r_membership r) sort x y Hx Hy)). }
+  split; [|split].
+  - pose proof (prep_objective kind m fb None p res labels Hp Hwf) as P1.
+    pose proof (prep_objective kind m fb None p res (seq 0 (length g1)) Hp Hwf) as P2.
+    cbv zeta in P1, P2. fold g1 in P1, P2.
+    assert (P3 : objective (p_adj p) (p_out p) (p_in p) res labels
+                 == objective (p_adj p) (p_out p) (p_in p) res (r_membership r)).
+    { apply objective_pattern. rewrite Hlg. exact Hpat. }
+    unfold obj in Hobj. rewrite Hlg in Hobj. lra.
+  - unfold labels. rewrite post_processing_length. exact Hlen.
+  - intros u v Hu Hv E. apply Hconn; auto. apply Nat.eqb_eq. rewrite <- (Hpat u v Hu Hv). apply Nat.eqb_eq. exact E.
+Qed.
+
+Lemma louvain_fit_labels fuel kfuel kind res tol_opt tol_agg n_agg sort m fb labels log mg :
+  louvain_fit fuel kfuel kind res tol_opt tol_agg n_agg sort m fb None = MOk (labels, log, mg) ->
+  let g1 := working_graph kind m fb None in
+  wf_wgraph g1 ->
+  kind_objective kind g1 res labels - kind_objective kind g1 res (seq 0 (length g1)) == log_total log /\
+  0 <= log_total log /\ log_nonneg log /\
+  length labels = length g1 /\
+  (forall u v, (u < length g1)%nat -> (v < length g1)%nat -> lab labels u = lab labels v -> connected g1 u v).
+Proof.
+  unfold louvain_fit. destruct (Nat.eqb (nnz (w_rows m)) 0); [intros; discriminate|].
+  destruct (pre_processing kind m fb None) as [p|] eqn:Hp; [|intros; discriminate].
+  destruct (louvain_loop fuel kfuel res tol_opt tol_agg n_agg (p_adj p) (p_out p) (p_in p)
+              (seq 0 (length (p_adj p))) 0 [] marg0) as [r|] eqn:Hl; [|intros; discriminate].
+  intros H Hwf. set (g1 := working_graph kind m fb None) in *.
+  destruct (louvain_fit_core fuel kfuel kind res tol_opt tol_agg n_agg m fb None p r Hp Hl) as [C1 [C2 [C3 [C4 C5]]]].
+  destruct (fit_labels_core kind m fb res p r sort (log_total (r_log r)) Hp Hwf C1 C4 C5) as [F1 [F2 F3]].
+  assert (E1 : labels = post_processing (r_membership r) sort
+                 (argsort_desc (cluster_sizes (unique_inverse (r_membership r)) (n_clusters (r_membership r)))) None)
+    by congruence.
+  assert (E2 : log = r_log r) by congruence.
+  subst labels log. auto.
+Qed.
+
+Lemma leiden_fit_labels refine fuel kfuel kind res tol_opt tol_agg n_agg sort m fb labels log mg :
+  refine_contract refine ->
+  leiden_fit fuel kfuel kind res tol_opt tol_agg n_agg sort refine m fb None = MOk (labels, log, mg) ->
+  let g1 := working_graph kind m fb None in
+  wf_wgraph g1 ->
+  kind_objective kind g1 res labels - kind_objective kind g1 res (seq 0 (length g1)) == log_total log /\
+  0 <= log_total log /\ log_nonneg log /\
+  length labels = length g1 /\
+  (forall u v, (u < length g1)%nat -> (v < length g1)%nat -> lab labels u = lab labels v -> connected g1 u v).
+Proof.
+  intros Hc. unfold leiden_fit. destruct (Nat.eqb (nnz (w_rows m)) 0); [intros; discriminate|].
+  destruct (pre_processing kind m fb None) as [p|] eqn:Hp; [|intros; discriminate].
+  destruct (leiden_loop fuel kfuel res tol_opt tol_agg n_agg refine (p_adj p) (p_out p) (p_in p)
+              (seq 0 (length (p_adj p))) (seq 0 (length (p_adj p))) 0 [] marg0) as [r|] eqn:Hl; [|intros; discriminate].
+  intros H Hwf. set (g1 := working_graph kind m fb None) in *.
+  destruct (leiden_fit_core refine fuel kfuel kind res tol_opt tol_agg n_agg m fb None p r Hc Hp Hl) as [C1 [C2 [C3 [C4 C5]]]].
+  destruct (fit_labels_core kind m fb res p r sort (log_total (r_log r)) Hp Hwf C1 C4 C5) as [F1 [F2 F3]].
+  assert (E1 : labels = post_processing (r_membership r) sort
+                 (argsort_desc (cluster_sizes (unique_inverse (r_membership r)) (n_clusters (r_membership r)))) None)
+    by congruence.
+  assert (E2 : log = r_log r) by congruence.
+  subst labels log. auto.
+Qed.
